@@ -3,20 +3,11 @@ package larking
 import (
 	"context"
 	"io"
-
-	"google.golang.org/protobuf/reflect/protoreflect"
 )
 
 func init() {
 	vfHarnesses["VerifH_http_recv_stream"] = VerifH_http_recv_stream
 	vfHarnesses["VerifH_http_recv_body"] = VerifH_http_recv_body
-}
-
-func schemaHTTPBody() *fakeMD {
-	return newFakeMD("google.api.HttpBody",
-		&fakeFD{name: "content_type", kind: protoreflect.StringKind},
-		&fakeFD{name: "data", kind: protoreflect.BytesKind},
-	)
 }
 
 // VerifH_http_recv_stream (C06, C08): a client stream over HTTP with length-delimited protobuf or
